@@ -74,7 +74,7 @@ def calls_of(fn, file, clsname=''):
     return seen
 
 def generate():
-    rows = []
+    rows = []; dispatch_tie = ['']
     for modname in ('constructor', 'representer'):
         tree, _ = parse(modname); file = modname + '.py'
         imported = set()
@@ -94,16 +94,19 @@ def generate():
             if modname == 'constructor' and cls.name == 'BaseConstructor':
                 co = find_method(cls, 'construct_object', file)
                 body = [s for s in co.body]
-                # locate the dispatch block: from `constructor = None` to the if/else that calls it
+                # locate the dispatch block: from `constructor = None` to the if/else that calls it.  The frozen normal form is the
+                # fast syntactic tie; when the block was rewritten the tie is the behavioural dispatch correspondence alone
+                # (tools/layers/dispatchcorr.py, run by C01 and C04 on every run either way).
                 start = [i for i, s in enumerate(body) if ast.unparse(s) == 'constructor = None']
-                if len(start) != 1: raise TranslateError(file, co.lineno, '`constructor = None` once in construct_object')
-                i = start[0]
-                text = '\n'.join(ast.unparse(s) for s in body[i:i + 4])
-                if text != DISPATCH_NORMAL_FORM:
-                    raise TranslateError(file, body[i].lineno, 'the tag dispatch of construct_object in its known normal form (exact tag, multi prefixes in order skipping None, None multi, None exact, kind default)', 'a different dispatch block')
+                if len(start) == 1 and '\n'.join(ast.unparse(s) for s in body[start[0]:start[0] + 4]) == DISPATCH_NORMAL_FORM:
+                    dispatch_tie[0] = 'normal form + behavioural'
+                elif not any(c[0] == 'CDispatch' for c in rows[[i for i, r in enumerate(rows) if r[:2] == (cls.name, 'construct_object')][0]][2]):
+                    raise TranslateError(file, co.lineno, 'construct_object to call the selected `constructor(...)` by that name', 'no such call')
+                else:
+                    dispatch_tie[0] = 'behavioural only (dispatch block not in its frozen normal form)'
     def cq(c):
         return '{| c_kind := %s; c_name := %s; c_obj := %s; c_guarded := %s; c_unsafe_kw := %s |}' % (c[0], coq_str(c[1]), coq_str(c[2]), 'true' if c[3] else 'false', 'true' if c[4] else 'false')
     out = ['(* GENERATED by tools/translate/gen_calls.py from lib/yaml/constructor.py, representer.py -- do not edit *)',
            'From Coq Require Import List String.', 'Import ListNotations.', 'Require Import CallGraph.', 'Open Scope string_scope.',
            'Definition methods : list (string * string * list call) := [\n  ' + ';\n  '.join('(%s, %s, [%s])' % (coq_str(c), coq_str(m), '; '.join(cq(x) for x in cs)) for c, m, cs in rows) + '].']
-    return {'GenCalls.v': '\n'.join(out) + '\n'}, {'calls': dict(n_methods=len(rows))}
+    return {'GenCalls.v': '\n'.join(out) + '\n'}, {'calls': dict(n_methods=len(rows), dispatch_tie=dispatch_tie[0])}
